@@ -189,7 +189,7 @@ def atomic_facts(fn, prog, bb, tb=None):
     out = []
     for cond, truth, d in facts_at(fn, prog, bb, tb):
         out += decompose(cond, truth, prog)
-    return out
+    return remember_facts(out)
 
 
 def int_bounds(facts, x, unsigned=True):
@@ -284,6 +284,17 @@ def panic_sites(fn):
     return out
 
 
+_LIN_CACHE = {}
+_FACT_TERMS = {}      # repr -> term for Eq/Ne facts seen by atomic_facts / path_facts (fv receives only reprs)
+
+
+def remember_facts(facts):
+    for c, tr in facts:
+        if c[0] == "op" and c[1] in ("Eq", "Ne") and len(c[2]) == 2:
+            _FACT_TERMS.setdefault(repr(c), c)
+    return facts
+
+
 def fv(d, cond):
     """truth value of `cond` in a dict repr(term) -> bool of branch facts, using integer dualities:
     a < b  <=>  !(b <= a);   a == b  <=>  !(a != b);   Not(x)  <=>  !x"""
@@ -308,6 +319,28 @@ def fv(d, cond):
             dual = mk("Ne" if n == "Eq" else "Eq", a[0], a[1])
             if repr(dual) in d:
                 return not d[repr(dual)]
+            # the same equation written differently: pos == len - 1  <=>  pos + 1 == len
+            lin = _LIN_CACHE.get(("goal", r))
+            if lin is None:
+                from .terms import linear
+                la, ca = linear(mk("Sub", a[0], a[1]))
+                lin = _LIN_CACHE[("goal", r)] = ({k: v[1] for k, v in la.items()}, ca)
+            if lin[0]:
+                for k_, tr in d.items():
+                    if not (k_.startswith("('op', 'Eq'") or k_.startswith("('op', 'Ne'")):
+                        continue
+                    f_ = _FACT_TERMS.get(k_)
+                    if f_ is None:
+                        continue
+                    fl = _LIN_CACHE.get(("fact", k_))
+                    if fl is None:
+                        from .terms import linear
+                        lf, cf_ = linear(mk("Sub", f_[2][0], f_[2][1]))
+                        fl = _LIN_CACHE[("fact", k_)] = ({kk: v[1] for kk, v in lf.items()}, cf_)
+                    same = fl == lin or (({kk: -v for kk, v in fl[0].items()}, -fl[1]) == lin)
+                    if same:
+                        eq_holds = tr if f_[1] == "Eq" else (not tr)
+                        return eq_holds if n == "Eq" else (not eq_holds)
             # unsigned: x != 0  <=>  0 < x
             if const(0) in a:
                 x = [y for y in a if y != const(0)]
